@@ -3,6 +3,7 @@ package main
 // Result classification, known findings, VIOLATION lines, evidence files.
 
 import (
+	"os/exec"
 	"encoding/json"
 	"fmt"
 	"os"
@@ -111,7 +112,16 @@ func (r *Report) finish() int {
 	ev := map[string]interface{}{}
 	cov := map[string]interface{}{}
 	replayRoot := filepath.Join(verifRoot, "replays", id)
+	scratch := os.Getenv("GOVC_REPO") != "" // self-test run on a scratch copy: nothing is written under /verif
+	if scratch {
+		replayRoot = filepath.Join(os.TempDir(), "govc-selftest-replays", id)
+	}
 	os.RemoveAll(replayRoot)
+	defer func() {
+		if scratch {
+			os.RemoveAll(replayRoot)
+		}
+	}()
 
 	violate := func(name string, info map[string]interface{}, hasInput bool) {
 		violations++
@@ -302,6 +312,16 @@ func (r *Report) finish() int {
 	ev["assumptions"] = assumptions
 	ev["wall_s"] = round3(time.Since(r.T0).Seconds())
 	ev["violations"] = violations
+	if scratch {
+		for _, l := range lines {
+			fmt.Println(l)
+		}
+		fmt.Printf("property %s tier %s: %d obligations, %d violations (scratch copy %s)\n", id, r.Tier, len(r.E.order), violations, os.Getenv("GOVC_REPO"))
+		return exit
+	}
+	if r.Tier == "thorough" && len(r.fatals) == 0 {
+		cov["must_fail_selftest"] = r.selfTest(id)
+	}
 	os.MkdirAll(filepath.Join(verifRoot, "evidence"), 0o755)
 	b, _ := json.MarshalIndent(ev, "", " ")
 	os.WriteFile(filepath.Join(verifRoot, "evidence", id+".json"), b, 0o644)
@@ -379,4 +399,55 @@ func parseModel(out string) map[string]string {
 		}
 	}
 	return m
+}
+
+// selfTest (thorough tier): every seeded change of /verif/seeded/<id>-*/patch.diff is applied to a scratch copy of
+// /repo's working tree (outside /repo and /verif, removed afterwards) and the property's check is run on the copy: a
+// seeded change must make at least one obligation fail.  This tests the machinery (vacuity), not the property: an
+// undetected seed is reported in the evidence, never as a VIOLATION.
+func (r *Report) selfTest(id string) []map[string]interface{} {
+	var out []map[string]interface{}
+	seeds, _ := filepath.Glob(filepath.Join(verifRoot, "seeded", id+"-*", "patch.diff"))
+	for _, patch := range seeds {
+		res := map[string]interface{}{"seed": filepath.Base(filepath.Dir(patch))}
+		dir, err := os.MkdirTemp("", "govc-selftest-")
+		if err != nil {
+			res["error"] = err.Error()
+			out = append(out, res)
+			continue
+		}
+		func() {
+			defer os.RemoveAll(dir)
+			if b, err := exec.Command("cp", "-a", filepath.Dir(repoSrc)+"/src", dir+"/src").CombinedOutput(); err != nil {
+				res["error"] = "copy: " + string(b)
+				return
+			}
+			cmd := exec.Command("patch", "-p1", "-s", "-d", dir, "-i", patch)
+			if b, err := cmd.CombinedOutput(); err != nil {
+				res["applies"] = false
+				res["error"] = strings.TrimSpace(string(b))
+				return
+			}
+			res["applies"] = true
+			self, _ := os.Executable()
+			c := exec.Command(self, "verify", "--property", id, "--tier", "quick")
+			c.Env = append(os.Environ(), "GOVC_REPO="+dir+"/src")
+			b, _ := c.CombinedOutput()
+			var failed []string
+			for _, l := range strings.Split(string(b), "\n") {
+				if strings.HasPrefix(l, "VIOLATION") {
+					if i := strings.Index(l, "obligation="); i >= 0 {
+						failed = append(failed, strings.Fields(l[i+len("obligation="):])[0])
+					}
+				}
+			}
+			res["detected"] = len(failed) > 0
+			if len(failed) > 5 {
+				failed = failed[:5]
+			}
+			res["failed_obligations"] = failed
+		}()
+		out = append(out, res)
+	}
+	return out
 }
